@@ -34,9 +34,9 @@ func PlanFor(prop, tier string) (*Plan, error) {
 		p.Monitors = func() []Monitor { return []Monitor{NewC04()} }
 		p.Rule = "same enumeration; at every settlement each bidder's payment (reservation minus refund read off the bank transfers) is bounded by P*q <= paid < P*q + #matched bids and by the reservation, losers get everything back, P* never exceeds a matched bid's limit; every accepted fixed-price bid is checked against its rounding bound; non-trivial = distinct (P*, quantity, paid, matched bids, reserved) winner cases and distinct fixed bids"
 	case "C05":
-		p.Scenarios = append(bookScenarios(tier), S1b(tier, "3", true), S1b(tier, "0.5", false), S2b(tier, 2, false), S3(tier, false), S3x(tier), S3e(tier))
+		p.Scenarios = append(bookScenarios(tier), S1b(tier, "3", true), S1b(tier, "0.5", false), S2b(tier, 0, true), S3(tier, false), S3x(tier), S3e(tier))
 		if !quick {
-			p.Scenarios = append(p.Scenarios, S1a(tier, true), S2a(tier, false))
+			p.Scenarios = append(p.Scenarios, S1a(tier, true), S2a(tier, false), S2b(tier, 2, false))
 		}
 		p.Monitors = func() []Monitor { return []Monitor{NewC05()} }
 		p.Rule = "same enumeration; every accepted fixed-price bid is checked against the cap and remainder of the pre-state, every settlement against cap (as of settlement), request at the clearing price and offered amount; non-trivial = distinct (received, cap, price) cases"
@@ -73,9 +73,9 @@ func PlanFor(prop, tier string) (*Plan, error) {
 		p.Monitors = func() []Monitor { return []Monitor{NewC11()} }
 		p.Rule = "chains of modifications of every bid by owner, other bidder and outsider over the (price, amount) grid incl. lower / equal / higher in each coordinate, wrong denom, below the floor, unknown bid, in every auction status; decision compared in both directions with the reference predicate; on acceptance identity, monotonicity and charge = reservation increase; in every transition no bid disappears or shrinks; non-trivial = distinct decisions"
 	case "C13":
-		p.Scenarios = []*Scenario{S2b(tier, 2, false), S2c(tier, "0.25", 1), S2c(tier, "1", 2), S2c(tier, "0.5", 0)}
+		p.Scenarios = []*Scenario{S2b(tier, 1, true), S2c(tier, "0.25", 1), S2c(tier, "1", 2), S2c(tier, "0.5", 0)}
 		if !quick {
-			p.Scenarios = append(p.Scenarios, S2a(tier, false), S2b(tier, 1, true), S2c(tier, "0.5", 2), S2c(tier, "0.1", 1))
+			p.Scenarios = append(p.Scenarios, S2a(tier, false), S2b(tier, 2, false), S2b(tier, 1, true), S2c(tier, "0.5", 2), S2c(tier, "0.1", 1))
 		}
 		p.Monitors = func() []Monitor { return []Monitor{NewC13()} }
 		p.Rule = "order-book evolutions between end times (new bids, modifications, cap changes) for max rounds 0/1/2, several rates and periods; at every end-time block the decision is compared with the exact-rational rule, the appended end time with last + period, the recorded matched count with the reference count of the book; from every distinct state with an open batch auction a bounded continuation (one block per successive end time) must settle within the rounds left; non-trivial = distinct (rounds left, previous count, current count, decision, rate) cases"
@@ -119,9 +119,9 @@ func PlanFor(prop, tier string) (*Plan, error) {
 		p.Monitors = func() []Monitor { return []Monitor{NewC16(true)} }
 		p.Rule = "batch auctions through extended rounds (provisional winners outbid later), fixed-price bids converting to zero coins, vesting, and a multi-auction scenario: at every settlement each bid's is_matched flag is compared with its contribution to what its bidder received and the published matched price with the clearing price; released flags with payments; in every distinct module state the whole query alphabet (by-id for every existing and a missing key; ListAuction x status x type; ListBid x auction x bidder x is_matched; ListAllowedBidder / ListVestingQueue x auction; each unlimited + count, offset, and page size 1 with key continuation) is compared with a reference filter over the raw store dump; non-trivial = distinct settlements and distinct queried states"
 	case "C15":
-		lite := Budget{"bid": 2, "allow": 2, "update": 0, "mod": 1, "block": 3, "tick": 0, "cancel": 1}
+		lite := Budget{"bid": 2, "allow": 1, "update": 0, "mod": 1, "block": 3, "tick": 0, "cancel": 1}
 		p.Scenarios = []*Scenario{
-			S3(tier, false).withBudget(Budget{"bid": 2, "mod": 1, "block": 3, "update": 0, "create": 1, "cancel": 1}, "-lite"),
+			S3(tier, false).withBudget(Budget{"bid": 2, "mod": 1, "block": 3, "update": 0, "create": 0, "cancel": 0}, "-lite"),
 			S2e(tier).withBudget(Budget{"bid": 2, "mod": 0, "block": 4, "update": 0}, "-lite"),
 			S1a(tier, true).withBudget(lite, "-lite"),
 			S3e(tier).withBudget(Budget{"bid": 3, "block": 3}, "-lite"),
@@ -133,7 +133,10 @@ func PlanFor(prop, tier string) (*Plan, error) {
 		p.Monitors = func() []Monitor { return []Monitor{NewC15(deep)} }
 		p.Rule = "at every distinct module state of the multi-auction, early-release batch and fixed lifecycle scenarios: ExportGenesis -> JSON -> Validate; wipe the module store on a branch and InitGenesis; compare auctions, bids, allow-lists, instalments, counters and params byte by byte; then run original and re-imported branch in lock-step over every single op of the scenario menu, every pair (thorough: triple) of later block instants and bid-then-block sequences, comparing decisions, the seven collections and balances after every step; non-trivial = distinct exported states holding at least one auction"
 	case "C10":
-		p.Scenarios = []*Scenario{S1a(tier, true).withMsgAddAllow(), S2a(tier, false).withMsgAddAllow(), S3(tier, false).withMsgAddAllow(), S1b(tier, "3", true).withMsgAddAllow(), S2b(tier, 0, true).withMsgAddAllow()}
+		p.Scenarios = []*Scenario{S1a(tier, true).withMsgAddAllow(), S3(tier, false).withMsgAddAllow(), S1b(tier, "3", true).withMsgAddAllow(), S2b(tier, 0, true).withMsgAddAllow()}
+		if !quick {
+			p.Scenarios = append(p.Scenarios, S2a(tier, false).withMsgAddAllow(), S2b(tier, 2, false).withMsgAddAllow())
+		}
 		p.Monitors = func() []Monitor { return []Monitor{NewC10()} }
 		p.Rule = "in every explored state MsgAddAllowedBidder{auction, bidder = signer, max} is delivered through the application's message router for every auction and every bidder incl. an outsider; it must be rejected and the allow-list must be byte-identical afterwards; no other message may change the allow-list; every accepted bid's signer is on the list in the pre-state and every stored bid's bidder is listed in every state; non-trivial = distinct (auction status, listed?, signer, state) deliveries. The process links the application like cmd/fundraisingd does (it imports app, nothing from testutil / simulation)."
 		p.Post = c10Binary
@@ -162,6 +165,18 @@ func PlanFor(prop, tier string) (*Plan, error) {
 		p.Rule = "every explored state x every later timeline instant: the module's registered block hook must return nil and not panic; non-trivial = distinct (pre-state, block time) pairs in which the block changed the module state, plus distinct status vectors"
 	default:
 		return nil, fmt.Errorf("no plan for property %q", prop)
+	}
+	// The thorough tier first completes the whole quick space (so that thorough always contains quick
+	// and a capped thorough run still has an exhaustively covered core), then spends the rest of its
+	// wall-clock budget on the wider alphabets and budgets.
+	if !quick && p.Custom == nil {
+		if q, err := PlanFor(prop, "quick"); err == nil {
+			for _, sc := range q.Scenarios {
+				sc.Name += "@quick-space"
+			}
+			p.Scenarios = append(q.Scenarios, p.Scenarios...)
+			p.TimeCapS = 900
+		}
 	}
 	return p, nil
 }
